@@ -27,6 +27,12 @@ class VSub(Vertex):
     pass
 
 
+class FalsyV(VSub):
+    """a vertex whose truth value is False (C08: the answer must not depend on it)"""
+    def __bool__(self):
+        return False
+
+
 class DSub(DirectedEdge):
     pass
 
@@ -42,6 +48,7 @@ class Other(TwoEndedLink):
 KIND_CLS = {"KVertex": Vertex, "KVertexSub": VSub, "KUniverse": Universe, "KDir": DirectedEdge, "KDirSub": DSub,
             "KUnd": UnDirectedEdge, "KUndSub": USub, "KOther": Other, "KLaws": UniverseLaws}
 CLS_KIND = {v: k for k, v in KIND_CLS.items()}
+CLS_KIND[FalsyV] = "KVertexSub"
 LINK_KINDS = ["KDir", "KDirSub", "KUnd", "KUndSub", "KOther"]
 VERTEX_KINDS = ["KVertex", "KVertexSub", "KUniverse"]
 EXN = {"TypeError", "ValueError", "IndexError", "KeyError", "AttributeError", "NotImplementedError"}
@@ -143,7 +150,7 @@ class World:
         if t == "NV":
             us = [g(i, U) for i in op[2]]
             ls = [g(i, L) for i in op[3]]
-            cls = VSub if op[1] else Vertex
+            cls = FalsyV if op[1] == 2 else VSub if op[1] else Vertex
             kw = {}
             if us:
                 kw["universes"] = list(us)
